@@ -70,6 +70,8 @@ type hchan struct {
 	buf    []value
 	closed bool
 	never  bool // a channel nobody ever sends on (timers, Done of a live context)
+	cap    int    // sched mode: buffer capacity
+	vc     vclock // sched mode: happens-before clock
 }
 
 type rtype struct{ t types.Type }
